@@ -115,6 +115,10 @@ pub trait Prop: Sync + Send + 'static {
     fn tape_len(&self) -> usize {
         256
     }
+    /// Upper bound on shrink steps (lower it for parts whose cases are slow).
+    fn max_shrink_iters(&self) -> u32 {
+        4000
+    }
     /// Generated cases over all shards.
     fn cases(&self, tier: Tier) -> u64;
     fn generate(&self, g: &mut Gen) -> Self::Case;
@@ -132,6 +136,7 @@ pub trait Prop: Sync + Send + 'static {
 pub trait Part: Sync + Send {
     fn name(&self) -> &'static str;
     fn tape_len(&self) -> usize;
+    fn max_shrink_iters(&self) -> u32;
     fn cases(&self, tier: Tier) -> u64;
     fn exhaustive(&self, tier: Tier) -> bool;
     fn decode(&self, tape: &[u32]) -> Value;
@@ -187,6 +192,20 @@ pub fn catch<T>(f: impl FnOnce() -> T) -> Result<T, String> {
 }
 
 fn checked<P: Prop>(p: &P, case: &P::Case) -> Outcome {
+    let t0 = Instant::now();
+    let r = checked_inner(p, case);
+    // debugging aid: VERIF_TRACE_SLOW=<ms> reports cases slower than that
+    if let Some(ms) = std::env::var("VERIF_TRACE_SLOW").ok().and_then(|s| s.parse::<u128>().ok()) {
+        if t0.elapsed().as_millis() > ms {
+            let mut s = format!("{case:?}");
+            s.truncate(400);
+            eprintln!("SLOW {} ms in part {}: {s}", t0.elapsed().as_millis(), Prop::name(p));
+        }
+    }
+    r
+}
+
+fn checked_inner<P: Prop>(p: &P, case: &P::Case) -> Outcome {
     match catch(|| p.check(case)) {
         Ok(o) => o,
         Err(msg) => {
@@ -209,6 +228,9 @@ impl<P: Prop> Part for P {
     }
     fn tape_len(&self) -> usize {
         Prop::tape_len(self)
+    }
+    fn max_shrink_iters(&self) -> u32 {
+        Prop::max_shrink_iters(self)
     }
     fn cases(&self, tier: Tier) -> u64 {
         Prop::cases(self, tier)
@@ -446,7 +468,7 @@ pub fn run_shard(ctx: &ShardCtx) -> ShardReport {
         cfg.cases = mine as u32;
         cfg.rng_seed = RngSeed::Fixed(derive_seed(ctx.seed, ctx.def.id, pi, ctx.shard));
         cfg.failure_persistence = None;
-        cfg.max_shrink_iters = 4000;
+        cfg.max_shrink_iters = part.max_shrink_iters();
         cfg.max_shrink_time = 0;
         cfg.verbose = 0;
         cfg.max_global_rejects = 0;
